@@ -124,6 +124,27 @@ let run_uri (id : string) (fields : t list) : string =
            Printf.sprintf "%s pb=ok pr=ok str=%s frag=%s abs=%d" id (ints_of_str (M.uri_string (M.drop_frag u)))
              (ints_of_str u.M.u_frag) (if M.is_abs u then 1 else 0))
 
+(* family roundtrip: Schema value -> Marshal -> Unmarshal -> Marshal (C05) *)
+let run_roundtrip (id : string) (fields : t list) : string =
+  let s = Schema_conv.schema_of_sexp (field1 "schema" fields) in
+  match M.marshal s with
+  | M.Ok d ->
+      (match M.unmarshal d with
+       | M.Ok s2 ->
+           let again = match M.marshal s2 with M.Ok d2 -> jdoc_to_string d2 = jdoc_to_string d | _ -> false in
+           Printf.sprintf "%s out=ok doc=%s unm=ok model_again=%d" id (jdoc_to_string d) (if again then 1 else 0)
+       | r -> Printf.sprintf "%s out=ok doc=%s unm=%s" id (jdoc_to_string d) (res_tag r))
+  | r -> Printf.sprintf "%s out=%s" id (res_tag r)
+
+(* family docrt: document -> Unmarshal -> Marshal *)
+let run_docrt (id : string) (fields : t list) : string =
+  match M.unmarshal (jdoc_of_sexp (field1 "doc" fields)) with
+  | M.Ok s ->
+      (match M.marshal s with
+       | M.Ok d -> Printf.sprintf "%s unm=ok out=ok doc=%s" id (jdoc_to_string d)
+       | r -> Printf.sprintf "%s unm=ok out=%s" id (res_tag r))
+  | r -> Printf.sprintf "%s unm=%s" id (res_tag r)
+
 let () =
   let family = Sys.argv.(1) in
   let ic = open_in Sys.argv.(2) in
@@ -140,6 +161,8 @@ let () =
                  | "marshal" -> run_marshal id fields
                  | "equal" -> run_equal id fields
                  | "uri" -> run_uri id fields
+                 | "roundtrip" -> run_roundtrip id fields
+                 | "docrt" -> run_docrt id fields
                  | f -> failwith ("unknown family " ^ f))
             | _ -> failwith "case expected"
           with Failure m -> "DRIVER-ERROR " ^ m
